@@ -432,6 +432,14 @@ fn corpus() -> Vec<(ASchema, ADoc, Opts, &'static str)> {
                 obj("Query", vec![], vec![f("a", ATy::named("sort_order")), f("b", ATy::named("SortOrder"))]),
             ], query: Some("Query".into()), mutation: None, subscription: None },
             doc(vec![], vec![fld("a", vec![]), fld("b", vec![])], vec![]), both("Debug", "Debug", true), "schema-type-names-equal-after-normalization"),
+        // three fragments on one interface, none selecting `__typename` itself, all spreading ONE base fragment that does
+        (schema.clone(), ADoc { ops: vec![AOp { kind: "query", name: "W".into(), vars: vec![], sels: vec![fld("animal", vec![ASel::Spread { name: "F1".into() }, ASel::Spread { name: "F2".into() }, ASel::Spread { name: "F3".into() }])] }],
+            frags: vec![
+                AFrag { name: "Base".into(), on: "Animal".into(), sels: vec![ASel::Typename] },
+                AFrag { name: "F1".into(), on: "Animal".into(), sels: vec![ASel::Spread { name: "Base".into() }] },
+                AFrag { name: "F2".into(), on: "Animal".into(), sels: vec![fld("name", vec![]), ASel::Spread { name: "Base".into() }] },
+                AFrag { name: "F3".into(), on: "Animal".into(), sels: vec![ASel::Spread { name: "Base".into() }, ASel::Inline { on: "Dog".into(), sub: vec![fld("fooBar", vec![])] }] },
+            ] }, Opts::default(), ""),
         (collide_schema(vec!["self", "Self", "blue"]), enum_doc_c.clone(), both("Debug", "Debug", true), "enum-values-equal-after-normalization"),
         (collide_schema(vec!["self", "Self", "blue"]), enum_doc_c.clone(), both("Debug", "Debug", false), ""),
         (collide_schema(vec!["Other", "blue"]), enum_doc_c.clone(), both("Debug", "Debug", false), ""),
@@ -449,7 +457,7 @@ pub fn run(a: &Args) -> i32 {
     let forms_every = if rep.thorough() { 2 } else { 3 }; // every k-th case is compiled in all four forms
     let mut ctx = CaseCtx::new();
     let sk = SchemaKnobs::default();
-    let ok = OpKnobs::default();
+    let ok = OpKnobs { shared_typename_base: true, ..OpKnobs::default() };
     let mut cases: Vec<Case> = Vec::new();
     let mut serde_codes: Vec<CaseCode> = Vec::new();
     let mut plain_codes: Vec<CaseCode> = Vec::new();
@@ -473,6 +481,9 @@ pub fn run(a: &Args) -> i32 {
             }
         };
         let idx = cases.len();
+        if doc.frags.iter().any(|f| f.name.ends_with("TypenameBase")) {
+            rep.count("document:typename-through-a-shared-base-fragment");
+        }
         let enums = enum_names(&schema);
         for (name, _) in &enums {
             if !is_corpus && rng.chance(20) {
